@@ -97,7 +97,7 @@ def main():
                       "failed_at": {"file": "tools/translate_data.py", "line": None, "item": "translator failed closed: " + data_msg[-800:]},
                       "log_tail": data_msg[-2000:], "wall_s": 0}
         else:
-            proofs = coqbuild.check_proofs(prop, timeout=2400 if tier == "thorough" else 1500)
+            proofs = coqbuild.check_proofs(prop, timeout=2400 if tier == "thorough" else 1500, coqchk=(tier == "thorough"))
         driver = None; driver_err = None
         try:
             driver = coqbuild.build_driver(prop)
@@ -284,6 +284,7 @@ def main():
             "oracle_failures_unexplained": len(oracle_fail),
             "data_regenerated": data_hashes,
             "proof_wall_s": round(proofs.get("wall_s", 0), 1),
+            "coqchk": proofs.get("coqchk", "not run in this tier (thorough only)"),
             "notes": notes[:20],
             "explanation": "theorems are about the Gallina model; the correspondence and oracle counts are testing, not proof",
         },
